@@ -5,3 +5,4 @@ pub mod observe;
 pub mod gen;
 pub mod props;
 pub mod cmp;
+pub mod snapshot;
